@@ -15,6 +15,7 @@ INVARIANT ThJoinMeet
 INVARIANT ThLatticeLaws
 INVARIANT ThPredicates
 INVARIANT ThTraversal
+INVARIANT ThGeneralization
 INVARIANT ThLabels
 INVARIANT ThJunctors
 INVARIANT ThGenerators
